@@ -47,6 +47,10 @@ Qed.
 Lemma nth_error_app_last {A} (l : list A) x : nth_error (l ++ [x]) (length l) = Some x.
 Proof. rewrite nth_error_app2 by lia. rewrite Nat.sub_diag. reflexivity. Qed.
 
+(* every address-in-use entry has been followed by a re-issued probe *)
+Definition settled (S : list (probe * send_outcome)) : Prop :=
+  forall i q, nth_error S i = Some (q, AddressInUseO) -> nth_error S (Datatypes.S i) <> None.
+
 Lemma hinv_append c s s1 S A p o st :
   Inv c s -> HInv c s S A -> sequence s - round_sequence s < 512 ->
   sequence s1 = sequence s + 1 -> round_sequence s1 = round_sequence s ->
@@ -54,7 +58,7 @@ Lemma hinv_append c s s1 S A p o st :
   p_sequence p = sequence s ->
   (forall sr, ~ In (p, sr) A) ->
   slot_matches A (p, o) None st ->
-  (forall q o', In (q, o') S -> o' <> AddressInUseO) ->
+  settled S ->
   HInv c s1 (S ++ [(p, o)]) A.
 Proof.
   intros HI [Hl Hs Hsl Ha Hn] Hcap Hq Hr Hb Hp Hna Hm Hnoinuse.
@@ -76,7 +80,7 @@ Proof.
         -- rewrite He, nth_error_app_last.
            assert (Hold : nth_error S (Datatypes.S i) = None) by (apply nth_error_None; lia). rewrite Hold in Hm0.
            unfold slot_matches in *. destruct po as [q o']. destruct o'; try assumption.
-           exfalso. apply (Hnoinuse q AddressInUseO); [eapply nth_error_In; eassumption|reflexivity].
+           exfalso. apply (Hnoinuse i q Hi). assumption.
         -- rewrite nth_error_app1 by lia. assumption.
     + assert (i = length S).
       { assert (nth_error (S ++ [(p, o)]) i <> None) by congruence. apply nth_error_Some in H. rewrite app_length in H. cbn in H. lia. }
@@ -99,6 +103,20 @@ Qed.
 
 Definition no_inuse (S : list (probe * send_outcome)) : Prop := forall q o', In (q, o') S -> o' <> AddressInUseO.
 
+Lemma no_inuse_settled S : no_inuse S -> settled S.
+Proof. intros H i q Hi. exfalso. apply (H q AddressInUseO); [eapply nth_error_In; eassumption|reflexivity]. Qed.
+
+Lemma settled_app_sent S p o : settled S -> o <> AddressInUseO -> settled (S ++ [(p, o)]).
+Proof.
+  intros Hs Ho i q Hi. destruct (Nat.lt_ge_cases i (length S)) as [Hlt|Hge].
+  - rewrite nth_error_app1 in Hi by assumption. specialize (Hs i q Hi).
+    intros Hn. apply Hs. apply nth_error_None in Hn. rewrite app_length in Hn. cbn in Hn. apply nth_error_None. lia.
+  - assert (i = length S).
+    { assert (nth_error (S ++ [(p, o)]) i <> None) by congruence. apply nth_error_Some in H. rewrite app_length in H. cbn in H. lia. }
+    subst i. rewrite nth_error_app_last in Hi. inversion Hi; subst. congruence.
+Qed.
+
+
 (* send phase, ICMP/UDP *)
 Definition send_one (c : scfg) (s : tstate) (i : iter_in) : result (tstate * list event * option error) :=
   let sent := hd_clock (i_clock i) (round_start s) in
@@ -120,9 +138,9 @@ Qed.
 Lemma upd_upd {A} (l : list A) : forall k a b, upd k b (upd k a l) = upd k b l.
 Proof. induction l as [|x l IH]; intros [|k] a b; cbn; try reflexivity. f_equal. apply IH. Qed.
 
-Lemma hinv_send c s i s1 ev e S A : Accept c -> proto c <> Tcp -> Inv c s -> HInv c s S A -> no_inuse S ->
+Lemma hinv_send c s i s1 ev e S A : Accept c -> proto c <> Tcp -> Inv c s -> HInv c s S A -> settled S ->
   send_request c s i = Ok (s1, ev, e) ->
-  HInv c s1 (S ++ sends_of ev) A /\ (e = None -> no_inuse (S ++ sends_of ev)).
+  HInv c s1 (S ++ sends_of ev) A /\ (e = None -> settled (S ++ sends_of ev)).
 Proof.
   intros HA Hp HI HH Hni H. pose proof (accept_facts c HA) as F.
   destruct (can_send_ok c s HA HI) as (b & Hcs & Hb).
@@ -141,8 +159,8 @@ Proof.
             buffer s2 = upd (Z.to_nat (sequence s - round_sequence s)) st (buffer s) ->
             slot_matches A (p, o) None st -> HInv c s2 (S ++ [(p, o)]) A).
   { intros o st s2 E1 E2 E3 E4. eapply hinv_append; eassumption. }
-  assert (Hni' : forall o, o <> AddressInUseO -> no_inuse (S ++ [(p, o)])).
-  { intros o Ho q o' Hin. apply in_app_or in Hin. destruct Hin as [Hin|[Hin|[]]]; [apply (Hni q o' Hin)|inversion Hin; subst; assumption]. }
+  assert (Hni' : forall o, o <> AddressInUseO -> settled (S ++ [(p, o)])).
+  { intros o Ho. apply settled_app_sent; assumption. }
   rewrite Hnp in H. cbn [bind] in H.
   destruct (hd_send (i_sends i)) as [| | |e0] eqn:Eo; cbn [do_send bind] in H.
   - inversion H; subst. cbn [sends_of flat_map app]. split; [|intros _; apply Hni'; discriminate].
@@ -165,7 +183,7 @@ Proof.
 Qed.
 
 (* receive phase *)
-Lemma hinv_recv c s i s' e S A : Accept c -> Inv c s -> HInv c s S A -> no_inuse S ->
+Lemma hinv_recv c s i s' e S A : Accept c -> Inv c s -> HInv c s S A -> settled S ->
   recv_response c s i = Ok (s', e) ->
   (s' = s /\ HInv c s' S A) \/
   (exists r sr p, i_recv i = Resp r /\ accepted c s r sr p /\ HInv c s' S (A ++ [(p, sr)])).
@@ -184,7 +202,7 @@ Proof.
   { unfold slot_matches in Hm. destruct o.
     - destruct Hm as [[Hm Hno]|(sr0 & _ & Hm)]; [|discriminate]. inversion Hm; subst. repeat split; auto.
     - discriminate.
-    - exfalso. apply (Hni p' AddressInUseO); [eapply nth_error_In; eassumption|reflexivity].
+    - exfalso. destruct Hm as [[_ Hm]|[Hnx _]]; [discriminate|]. apply (Hni idx p' Ep). assumption.
     - destruct Hm as [[Hm Hno]|(sr0 & _ & Hm)]; [|discriminate]. inversion Hm; subst. repeat split; eauto. }
   destruct Hpo as (-> & Ho & Hno).
   pose proof (Hs idx (p, o) Ep) as Hpseq. cbn [fst] in Hpseq.
@@ -214,6 +232,7 @@ Definition status_of (A : list (probe * sresp)) (po : probe * send_outcome) : ps
   let '(p, o) := po in
   match o with
   | ProbeFailedO => Failed p
+  | AddressInUseO => Skipped
   | _ => match find_accept A (p_sequence p) with
          | Some sr => Complete (complete p sr)
          | None => Awaited p
@@ -247,7 +266,7 @@ Proof.
   - apply IH. intros p0 sr0 Hin. apply (H p0 sr0). right; assumption.
 Qed.
 
-Lemma published_probes_match c s S A : Inv c s -> HInv c s S A -> no_inuse S ->
+Lemma published_probes_match c s S A : Inv c s -> HInv c s S A -> settled S ->
   firstn (Z.to_nat (sequence s - round_sequence s)) (buffer s) = map (status_of A) S.
 Proof.
   intros HI [Hl Hs Hsl Ha Hn] Hni. apply nth_error_ext. intros i.
@@ -268,7 +287,7 @@ Proof.
     destruct o.
     + apply Hcase. assumption.
     + assumption.
-    + exfalso. apply (Hni p AddressInUseO); [eapply nth_error_In; eassumption|reflexivity].
+    + destruct Hm as [[_ Hm]|[Hnx _]]; [assumption|]. exfalso. apply (Hni i p Ei). assumption.
     + apply Hcase. assumption.
   - assert (H1 : nth_error (firstn (Z.to_nat (sequence s - round_sequence s)) (buffer s)) i = None)
       by (apply nth_error_None; rewrite firstn_length; lia).
@@ -334,7 +353,7 @@ Proof.
   cbn [bind] in H. inversion H; subst. cbn [buffer]. apply nth_error_upd_eq. lia.
 Qed.
 
-Lemma hinv_recv_ghost c s i s' e S A : Accept c -> Inv c s -> HInv c s S A -> no_inuse S ->
+Lemma hinv_recv_ghost c s i s' e S A : Accept c -> Inv c s -> HInv c s S A -> settled S ->
   recv_response c s i = Ok (s', e) -> HInv c s' S (ghost_accept c s i A).
 Proof.
   intros HA HI HH Hni Hr. unfold ghost_accept.
@@ -370,16 +389,284 @@ Fixpoint run_hist (c : scfg) (s : tstate) (S : list (probe * send_outcome)) (A :
     end
   end.
 
-Theorem run_hist_matches c : Accept c -> proto c <> Tcp -> forall is s S A,
-  Inv c s -> HInv c s S A -> no_inuse S ->
+(* ---- TCP: the re-issue loop ---- *)
+(* relabel the outcome of the last (just issued, not yet answered) probe *)
+Lemma hinv_relabel_last c s S A p o o' st : HInv c s (S ++ [(p, o)]) A ->
+  (forall sr, ~ In (p, sr) A) ->
+  nth_error (buffer s) (length S) = Some st -> slot_matches A (p, o') None st ->
+  (o' = Sent \/ (exists e, o' = FatalS e) \/ o' = ProbeFailedO \/ o' = AddressInUseO) ->
+  (forall q sr, In (q, sr) A -> q <> p) ->
+  HInv c s (S ++ [(p, o')]) A.
+Proof.
+  intros [Hl Hs Hsl Ha Hn] Hno Hst Hm Ho' Hnp.
+  constructor.
+  - rewrite app_length in *. cbn [length] in *. assumption.
+  - intros i po Hi. destruct (Nat.lt_ge_cases i (length S)) as [Hlt|Hge].
+    + rewrite nth_error_app1 in Hi by assumption. apply Hs. rewrite nth_error_app1 by assumption. assumption.
+    + assert (i = length S).
+      { assert (nth_error (S ++ [(p, o')]) i <> None) by congruence. apply nth_error_Some in H. rewrite app_length in H. cbn in H. lia. }
+      subst i. rewrite nth_error_app_last in Hi. inversion Hi; subst po. cbn [fst].
+      apply (Hs (length S) (p, o)). apply nth_error_app_last.
+  - intros i po Hi. destruct (Nat.lt_ge_cases i (length S)) as [Hlt|Hge].
+    + rewrite nth_error_app1 in Hi by assumption.
+      destruct (Hsl i po ltac:(rewrite nth_error_app1 by assumption; assumption)) as (st0 & Hst0 & Hm0).
+      exists st0. split; [assumption|].
+      destruct (Nat.eq_dec (Datatypes.S i) (length S)) as [He|Hne].
+      * rewrite He, nth_error_app_last in *. unfold slot_matches in *. destruct po as [q oq]. destruct oq; try assumption.
+        destruct Hm0 as [[_ Hx]|[Hx _]]; [left; split; [discriminate|assumption]|discriminate].
+      * assert (Hsame : nth_error (S ++ [(p, o')]) (Datatypes.S i) = nth_error (S ++ [(p, o)]) (Datatypes.S i)).
+        { destruct (Nat.lt_ge_cases (Datatypes.S i) (length S)); [rewrite !nth_error_app1 by assumption; reflexivity|lia]. }
+        rewrite Hsame. assumption.
+    + assert (i = length S).
+      { assert (nth_error (S ++ [(p, o')]) i <> None) by congruence. apply nth_error_Some in H. rewrite app_length in H. cbn in H. lia. }
+      subst i. rewrite nth_error_app_last in Hi. inversion Hi; subst po.
+      exists st. split; [assumption|].
+      assert (Hnone : nth_error (S ++ [(p, o')]) (Datatypes.S (length S)) = None) by (apply nth_error_None; rewrite app_length; cbn; lia).
+      rewrite Hnone. assumption.
+  - intros q sr Hin. destruct (Ha q sr Hin) as (i & oq & Hi & Hoq).
+    destruct (Nat.lt_ge_cases i (length S)) as [Hlt|Hge].
+    + exists i, oq. split; [|assumption]. rewrite nth_error_app1 in Hi |- * by assumption. assumption.
+    + assert (i = length S).
+      { assert (nth_error (S ++ [(p, o)]) i <> None) by congruence. apply nth_error_Some in H. rewrite app_length in H. cbn in H. lia. }
+      subst i. rewrite nth_error_app_last in Hi. inversion Hi; subst. exfalso. apply (Hnp q sr Hin). reflexivity.
+  - assumption.
+Qed.
+
+Lemma hinv_append_reissue c s s1 S0 A p p' :
+  Inv c s -> HInv c s (S0 ++ [(p, AddressInUseO)]) A ->
+  sequence s - round_sequence s < 512 ->
+  sequence s1 = sequence s + 1 -> round_sequence s1 = round_sequence s ->
+  buffer s1 = upd (Z.to_nat (sequence s - round_sequence s)) (Awaited p')
+                  (upd (Z.to_nat (sequence s - round_sequence s - 1)) Skipped (buffer s)) ->
+  p_sequence p' = sequence s ->
+  HInv c s1 (S0 ++ [(p, AddressInUseO); (p', Sent)]) A.
+Proof.
+  intros HI [Hl Hs Hsl Ha Hn] Hcap Hq Hr Hb Hp'.
+  rewrite app_length in Hl. cbn [length] in Hl.
+  assert (Hn0 : Z.to_nat (sequence s - round_sequence s - 1) = length S0) by lia.
+  assert (Hn1 : Z.to_nat (sequence s - round_sequence s) = Datatypes.S (length S0)) by lia.
+  pose proof (inv_len c s HI) as Hlen. pose proof (inv_seq c s HI) as Hseq.
+  assert (Hnoacc : forall sr, ~ In (p', sr) A).
+  { intros sr Hin. destruct (Ha p' sr Hin) as (i & o & Hi & _). pose proof (Hs i (p', o) Hi) as Hx. cbn [fst] in Hx.
+    assert (nth_error (S0 ++ [(p, AddressInUseO)]) i <> None) by congruence. apply nth_error_Some in H. rewrite app_length in H. cbn in H. lia. }
+  replace (S0 ++ [(p, AddressInUseO); (p', Sent)]) with ((S0 ++ [(p, AddressInUseO)]) ++ [(p', Sent)]) by (rewrite <- app_assoc; reflexivity).
+  set (S1 := S0 ++ [(p, AddressInUseO)]) in *.
+  assert (HlS1 : length S1 = Datatypes.S (length S0)) by (unfold S1; rewrite app_length; cbn; lia).
+  constructor.
+  - rewrite app_length. cbn [length]. lia.
+  - intros i po Hi. destruct (Nat.lt_ge_cases i (length S1)) as [Hlt|Hge].
+    + rewrite nth_error_app1 in Hi by assumption. rewrite Hr. apply Hs; assumption.
+    + assert (i = length S1).
+      { assert (nth_error (S1 ++ [(p', Sent)]) i <> None) by congruence. apply nth_error_Some in H. rewrite app_length in H. cbn in H. lia. }
+      subst i. rewrite nth_error_app_last in Hi. inversion Hi; subst po. cbn [fst]. lia.
+  - intros i po Hi. destruct (Nat.lt_ge_cases i (length S1)) as [Hlt|Hge].
+    + rewrite nth_error_app1 in Hi by assumption.
+      destruct (Nat.eq_dec i (length S0)) as [->|Hne].
+      * (* the abandoned probe: now Skipped, and it has a successor *)
+        unfold S1 in Hi. rewrite nth_error_app_last in Hi. inversion Hi; subst po.
+        exists Skipped. split.
+        -- rewrite Hb, Hn1, Hn0. rewrite nth_error_upd_neq by lia. apply nth_error_upd_eq. lia.
+        -- unfold slot_matches. left. split; [|reflexivity].
+           rewrite <- HlS1, nth_error_app_last. discriminate.
+      * destruct (Hsl i po Hi) as (st0 & Hst0 & Hm0). exists st0. split.
+        -- rewrite Hb, Hn1, Hn0. rewrite !nth_error_upd_neq by lia. assumption.
+        -- assert (Hlt0 : (i < length S0)%nat) by lia.
+           assert (Hsucc : nth_error (S1 ++ [(p', Sent)]) (Datatypes.S i) = nth_error S1 (Datatypes.S i)) by (rewrite nth_error_app1 by lia; reflexivity).
+           rewrite Hsucc. assumption.
+    + assert (i = length S1).
+      { assert (nth_error (S1 ++ [(p', Sent)]) i <> None) by congruence. apply nth_error_Some in H. rewrite app_length in H. cbn in H. lia. }
+      subst i. rewrite nth_error_app_last in Hi. inversion Hi; subst po.
+      exists (Awaited p'). split.
+      * rewrite Hb, Hn1, HlS1. apply nth_error_upd_eq. rewrite upd_length. lia.
+      * assert (Hnone : nth_error (S1 ++ [(p', Sent)]) (Datatypes.S (length S1)) = None) by (apply nth_error_None; rewrite app_length; cbn; lia).
+        rewrite Hnone. left. split; [reflexivity|assumption].
+  - intros q sr Hin. destruct (Ha q sr Hin) as (i & o & Hi & Ho). exists i, o. split; [|assumption].
+    rewrite nth_error_app1; [assumption|]. assert (nth_error S1 i <> None) by congruence. apply nth_error_Some in H. assumption.
+  - assumption.
+Qed.
+
+Lemma settled_reissued S0 p p' : settled S0 -> settled (S0 ++ [(p, AddressInUseO); (p', Sent)]).
+Proof.
+  intros Hs i q Hi. destruct (Nat.lt_ge_cases i (length S0)) as [Hlt|Hge].
+  - rewrite nth_error_app1 in Hi by assumption. specialize (Hs i q Hi). intros Hn. apply Hs.
+    apply nth_error_None in Hn. rewrite app_length in Hn. cbn in Hn. apply nth_error_None. lia.
+  - rewrite nth_error_app2 in Hi by assumption. destruct (i - length S0)%nat as [|[|k]] eqn:Ek; cbn in Hi; try discriminate.
+    + intros Hn. apply nth_error_None in Hn. rewrite app_length in Hn. cbn in Hn. lia.
+    + destruct k; discriminate.
+Qed.
+
+Lemma settled_swap_last S p p' : settled (S ++ [(p, Sent)]) -> settled (S ++ [(p, AddressInUseO); (p', Sent)]).
+Proof.
+  intros Hs i q Hi. destruct (Nat.lt_ge_cases i (length S)) as [Hlt|Hge].
+  - rewrite nth_error_app1 in Hi by assumption.
+    intros Hn. apply nth_error_None in Hn. rewrite app_length in Hn. cbn in Hn. lia.
+  - rewrite nth_error_app2 in Hi by assumption. destruct (i - length S)%nat as [|[|k]] eqn:Ek; cbn in Hi; try discriminate.
+    + intros Hn. apply nth_error_None in Hn. rewrite app_length in Hn. cbn in Hn. lia.
+    + destruct k; discriminate.
+Qed.
+
+(* the last (just issued) probe gets its final outcome; the state may change in that slot only *)
+Lemma hinv_change_last c s s2 S A p o o' st' : HInv c s (S ++ [(p, o)]) A ->
+  sequence s2 = sequence s -> round_sequence s2 = round_sequence s ->
+  (forall j, j <> length S -> nth_error (buffer s2) j = nth_error (buffer s) j) ->
+  nth_error (buffer s2) (length S) = Some st' -> slot_matches A (p, o') None st' ->
+  (forall q sr, In (q, sr) A -> q <> p) ->
+  HInv c s2 (S ++ [(p, o')]) A.
+Proof.
+  intros [Hl Hs Hsl Ha Hn] Hq Hr Hother Hst Hm Hnp.
+  constructor.
+  - rewrite app_length in *. cbn [length] in *. lia.
+  - intros i po Hi. rewrite Hr. destruct (Nat.lt_ge_cases i (length S)) as [Hlt|Hge].
+    + rewrite nth_error_app1 in Hi by assumption. apply Hs. rewrite nth_error_app1 by assumption. assumption.
+    + assert (i = length S).
+      { assert (nth_error (S ++ [(p, o')]) i <> None) by congruence. apply nth_error_Some in H. rewrite app_length in H. cbn in H. lia. }
+      subst i. rewrite nth_error_app_last in Hi. inversion Hi; subst po. cbn [fst].
+      apply (Hs (length S) (p, o)). apply nth_error_app_last.
+  - intros i po Hi. destruct (Nat.lt_ge_cases i (length S)) as [Hlt|Hge].
+    + rewrite nth_error_app1 in Hi by assumption.
+      destruct (Hsl i po ltac:(rewrite nth_error_app1 by assumption; assumption)) as (st0 & Hst0 & Hm0).
+      exists st0. split; [rewrite Hother by lia; assumption|].
+      destruct (Nat.eq_dec (Datatypes.S i) (length S)) as [He|Hne].
+      * rewrite He, nth_error_app_last in *. unfold slot_matches in *. destruct po as [q oq]. destruct oq; try assumption.
+        destruct Hm0 as [[_ Hx]|[Hx _]]; [left; split; [discriminate|assumption]|discriminate].
+      * assert (Hsame : nth_error (S ++ [(p, o')]) (Datatypes.S i) = nth_error (S ++ [(p, o)]) (Datatypes.S i)).
+        { destruct (Nat.lt_ge_cases (Datatypes.S i) (length S)); [rewrite !nth_error_app1 by assumption; reflexivity|lia]. }
+        rewrite Hsame. assumption.
+    + assert (i = length S).
+      { assert (nth_error (S ++ [(p, o')]) i <> None) by congruence. apply nth_error_Some in H. rewrite app_length in H. cbn in H. lia. }
+      subst i. rewrite nth_error_app_last in Hi. inversion Hi; subst po.
+      exists st'. split; [assumption|].
+      assert (Hnone : nth_error (S ++ [(p, o')]) (Datatypes.S (length S)) = None) by (apply nth_error_None; rewrite app_length; cbn; lia).
+      rewrite Hnone. assumption.
+  - intros q sr Hin. destruct (Ha q sr Hin) as (i & oq & Hi & Hoq).
+    destruct (Nat.lt_ge_cases i (length S)) as [Hlt|Hge].
+    + exists i, oq. split; [|assumption]. rewrite nth_error_app1 in Hi |- * by assumption. assumption.
+    + assert (i = length S).
+      { assert (nth_error (S ++ [(p, o)]) i <> None) by congruence. apply nth_error_Some in H. rewrite app_length in H. cbn in H. lia. }
+      subst i. rewrite nth_error_app_last in Hi. inversion Hi; subst. exfalso. apply (Hnp q sr Hin). reflexivity.
+  - assumption.
+Qed.
+
+Lemma last_slot_awaited c s S A p : HInv c s (S ++ [(p, Sent)]) A -> (forall sr, ~ In (p, sr) A) ->
+  nth_error (buffer s) (length S) = Some (Awaited p).
+Proof.
+  intros [Hl Hs Hsl Ha Hn] Hno. destruct (Hsl (length S) (p, Sent) (nth_error_app_last S _)) as (st & Hst & Hm).
+  unfold slot_matches in Hm. destruct Hm as [[-> _]|(sr & Hin & _)]; [assumption|]. exfalso. apply (Hno sr Hin).
+Qed.
+
+Lemma hinv_tcp_loop c : Accept c -> proto c = Tcp -> forall sends s p clk last S A s' ev e,
+  Inv c s -> HInv c s (S ++ [(p, Sent)]) A -> settled (S ++ [(p, Sent)]) -> (forall sr, ~ In (p, sr) A) ->
+  round_sequence s < sequence s -> first_ttl c < ttl s ->
+  tcp_reissue_loop c s p sends clk last = Ok (s', ev, e) ->
+  HInv c s' (S ++ sends_of ev) A /\ (e = None -> settled (S ++ sends_of ev)).
+Proof.
+  intros HA HT. induction sends as [|o rest IH]; intros s p clk last S A s' ev e HI HH Hset Hno Hlt Hft H.
+  - cbn [tcp_reissue_loop] in H. inversion H; subst. cbn [sends_of flat_map app]. split; [assumption|intros _; assumption].
+  - cbn [tcp_reissue_loop] in H.
+    pose proof (last_slot_awaited c s S A p HH Hno) as Hslot.
+    assert (Hlen : Z.of_nat (length S) + 1 = sequence s - round_sequence s).
+    { destruct HH as [Hl _ _ _ _]. rewrite app_length in Hl. cbn [length] in Hl. lia. }
+    assert (Hnp : forall q sr, In (q, sr) A -> q <> p) by (intros q sr Hin ->; apply (Hno sr Hin)).
+    destruct o as [| | |e0]; cbn [do_send bind] in H.
+    + inversion H; subst. cbn [sends_of flat_map app]. split; [assumption|intros _; assumption].
+    + (* transient failure *)
+      assert (Hn2 : nth_error (buffer s) (Z.to_nat (sequence s - round_sequence s - 1)) = Some (Awaited p)).
+      { replace (Z.to_nat (sequence s - round_sequence s - 1)) with (length S) by lia. assumption. }
+      destruct (fail_probe_spec c s p HI Hlt Hn2) as [Hf _]. rewrite Hf in H. cbn [bind] in H. inversion H; subst.
+      cbn [sends_of flat_map app]. split.
+      * set (s2 := with_buffer s (upd (Z.to_nat (sequence s - round_sequence s - 1)) (Failed p) (buffer s))).
+        assert (Hother : forall j, j <> length S -> nth_error (buffer s2) j = nth_error (buffer s) j).
+        { intros j Hj. unfold s2. cbn [with_buffer buffer]. apply nth_error_upd_neq. lia. }
+        assert (Hst2 : nth_error (buffer s2) (length S) = Some (Failed p)).
+        { unfold s2. cbn [with_buffer buffer]. replace (Z.to_nat (sequence s - round_sequence s - 1)) with (length S) by lia.
+          apply nth_error_upd_eq. pose proof (inv_len c s HI). pose proof (inv_seq c s HI). lia. }
+        exact (hinv_change_last c s s2 S A p Sent ProbeFailedO (Failed p) HH eq_refl eq_refl Hother Hst2 eq_refl Hnp).
+      * intros _ i q Hi. destruct (Nat.lt_ge_cases i (length S)) as [Hl0|Hg0].
+        -- rewrite nth_error_app1 in Hi by assumption. specialize (Hset i q ltac:(rewrite nth_error_app1 by assumption; assumption)).
+           intros Hn. apply Hset. apply nth_error_None in Hn. rewrite app_length in Hn. cbn in Hn. apply nth_error_None. rewrite app_length. cbn. lia.
+        -- assert (i = length S).
+           { assert (nth_error (S ++ [(p, ProbeFailedO)]) i <> None) by congruence. apply nth_error_Some in H0. rewrite app_length in H0. cbn in H0. lia. }
+           subst i. rewrite nth_error_app_last in Hi. discriminate.
+    + (* address in use *)
+      unfold round_has_capacity, sub16, sub_w, BUFFER_SIZE in H.
+      destruct (round_sequence s <=? sequence s) eqn:E1; [|lia]. cbn [bind] in H.
+      assert (HHu : HInv c s (S ++ [(p, AddressInUseO)]) A).
+      { apply (hinv_change_last c s s S A p Sent AddressInUseO (Awaited p) HH eq_refl eq_refl (fun j _ => eq_refl) Hslot); [|assumption].
+        right. split; reflexivity. }
+      destruct (sequence s - round_sequence s <? 512) eqn:Ecap.
+      * destruct (reissue_probe_spec c s (hd_clock clk last) HA HI HT Hlt ltac:(lia) Hft)
+          as (d & p' & s2 & Hd & Hp' & Hr & Hb & Hsq & Hrs & Httl & Hrd & Hst & Htf & Hmr & Htt & Hrt & HI2).
+        rewrite Hr in H. cbn [bind] in H.
+        destruct (tcp_reissue_loop c s2 p' rest (tl clk) (hd_clock clk last)) as [[[s3 ev3] e3]|?|?] eqn:Hrec; cbn [bind] in H; try discriminate.
+        inversion H; subst s' ev e. clear H.
+        pose proof (mk_probe_fields s d (ttl s - 1) (hd_clock clk last)) as (Fq & _). rewrite <- Hp' in Fq.
+        assert (HH2 : HInv c s2 ((S ++ [(p, AddressInUseO)]) ++ [(p', Sent)]) A).
+        { rewrite <- app_assoc. cbn [app]. eapply (hinv_append_reissue c s s2 S A p p' HI HHu); try eassumption; lia. }
+        assert (Hno' : forall sr, ~ In (p', sr) A).
+        { intros sr Hin. destruct HHu as [_ Hs' _ Ha' _]. destruct (Ha' p' sr Hin) as (j & oj & Hj & _).
+          pose proof (Hs' j (p', oj) Hj) as Hx. cbn [fst] in Hx.
+          assert (nth_error (S ++ [(p, AddressInUseO)]) j <> None) by congruence. apply nth_error_Some in H. rewrite app_length in H. cbn in H. lia. }
+        assert (Hset2 : settled ((S ++ [(p, AddressInUseO)]) ++ [(p', Sent)])).
+        { rewrite <- app_assoc. cbn [app]. apply settled_swap_last. assumption. }
+        destruct (IH s2 p' (tl clk) (hd_clock clk last) (S ++ [(p, AddressInUseO)]) A s3 ev3 e3 HI2 HH2 Hset2 Hno' ltac:(lia) ltac:(lia) Hrec) as [G1 G2].
+        cbn [sends_of flat_map app]. fold (sends_of ev3).
+        replace (S ++ (p, AddressInUseO) :: sends_of ev3) with ((S ++ [(p, AddressInUseO)]) ++ sends_of ev3) by (rewrite <- app_assoc; reflexivity).
+        split; assumption.
+      * inversion H; subst. cbn [sends_of flat_map app]. split; [assumption|discriminate].
+    + inversion H; subst. cbn [sends_of flat_map app]. split; [|discriminate].
+      apply (hinv_change_last c s' s' S A p Sent (FatalS e0) (Awaited p) HH eq_refl eq_refl (fun j _ => eq_refl) Hslot); [|assumption].
+      left. split; [reflexivity|assumption].
+Qed.
+
+(* send phase, any protocol *)
+Lemma hinv_send_any c s i s1 ev e S A : Accept c -> Inv c s -> HInv c s S A -> settled S ->
+  send_request c s i = Ok (s1, ev, e) ->
+  HInv c s1 (S ++ sends_of ev) A /\ (e = None -> settled (S ++ sends_of ev)).
+Proof.
+  intros HA HI HH Hset H.
+  destruct (proto c) eqn:Ep;
+    [ apply (hinv_send c s i s1 ev e S A HA ltac:(congruence) HI HH Hset H)
+    | apply (hinv_send c s i s1 ev e S A HA ltac:(congruence) HI HH Hset H) | ].
+  pose proof (accept_facts c HA) as F.
+  destruct (can_send_ok c s HA HI) as (b & Hcs & Hb). unfold send_request in H. rewrite Hcs, Ep in H. cbn [bind] in H.
+  destruct b; cbn [negb] in H.
+  2:{ inversion H; subst. cbn [sends_of flat_map]. rewrite app_nil_r. split; [assumption|intros _; assumption]. }
+  destruct (Hb eq_refl) as (_ & Hmax & _).
+  unfold round_has_capacity, sub16, sub_w, BUFFER_SIZE in H.
+  pose proof (inv_seq c s HI) as Hseq.
+  destruct (round_sequence s <=? sequence s) eqn:E1; [|lia]. cbn [bind] in H.
+  destruct (sequence s - round_sequence s <? 512) eqn:Ecap; cbn [negb] in H.
+  2:{ inversion H; subst. cbn [sends_of flat_map]. rewrite app_nil_r. split; [assumption|discriminate]. }
+  set (sent := hd_clock (i_clock i) (round_start s)) in *.
+  assert (Hcap : sequence s - round_sequence s < 512) by lia.
+  destruct (next_probe_spec c s sent HA HI Hcap ltac:(lia)) as (d & bf & Hd & Hbf & Hnp).
+  set (p := mk_probe s d (ttl s) sent) in *.
+  assert (Hpq : p_sequence p = sequence s) by apply (mk_probe_fields s d (ttl s) sent).
+  assert (Hnoacc : forall sr, ~ In (p, sr) A) by (apply (hinv_no_accept_for_new c s S A _ HH HI); assumption).
+  rewrite Hnp in H. cbn [bind] in H.
+  match type of H with context [tcp_reissue_loop c ?x] => set (s0 := x) in * end.
+  destruct (next_probe_inv c s sent _ _ HA HI Hcap ltac:(lia) ltac:(auto) Hnp) as (HI0 & Hsq0 & Httl0 & Hrs0 & _).
+  assert (HH0 : HInv c s0 (S ++ [(p, Sent)]) A).
+  { assert (Hbuf : buffer s0 = upd (Z.to_nat (sequence s - round_sequence s)) (Awaited p) (buffer s)) by (unfold s0; cbn [buffer]; exact Hbf).
+    assert (Hm : slot_matches A (p, Sent) None (Awaited p)) by (left; split; [reflexivity|assumption]).
+    exact (hinv_append c s s0 S A p Sent (Awaited p) HI HH Hcap Hsq0 Hrs0 Hbuf Hpq Hnoacc Hm Hset). }
+  assert (Hset0 : settled (S ++ [(p, Sent)])) by (apply settled_app_sent; [assumption|discriminate]).
+  destruct (i_sends i) as [|o rest] eqn:Es.
+  - inversion H; subst. cbn [sends_of flat_map app]. split; [assumption|intros _; assumption].
+  - apply (hinv_tcp_loop c HA Ep (o :: rest) s0 p (tl (i_clock i)) sent S A s1 ev e HI0 HH0 Hset0 Hnoacc); try assumption; try lia.
+    pose proof (inv_ttl c s HI). lia.
+Qed.
+
+Theorem run_hist_matches c : Accept c -> forall is s S A,
+  Inv c s -> HInv c s S A -> settled S ->
   Forall (fun x => let '(r, S', A') := x in rr_probes r = map (status_of A') S') (run_hist c s S A is).
 Proof.
-  intros HA Hp. induction is as [|i rest IH]; intros s S A HI HH Hni; cbn [run_hist].
+  intros HA. induction is as [|i rest IH]; intros s S A HI HH Hni; cbn [run_hist].
   - destruct (finished s (max_rounds c)); constructor.
   - destruct (finished s (max_rounds c)); [constructor|].
     destruct (send_request_ok c s i HA HI) as (s1 & ev1 & e1 & H1 & HI1 & _). rewrite H1.
     destruct e1 as [e1|]; [constructor|].
-    destruct (hinv_send c s i s1 ev1 None S A HA Hp HI HH Hni H1) as [HH1 Hni1]. specialize (Hni1 eq_refl).
+    destruct (hinv_send_any c s i s1 ev1 None S A HA HI HH Hni H1) as [HH1 Hni1]. specialize (Hni1 eq_refl).
     destruct (recv_response_ok c s1 i HA HI1) as (s2 & e2 & H2 & HI2 & _). rewrite H2.
     destruct e2 as [e2|]; [constructor|].
     pose proof (hinv_recv_ghost c s1 i s2 None _ A HA HI1 HH1 Hni1 H2) as HH2.
@@ -389,7 +676,7 @@ Proof.
     + constructor.
       * destruct (publish_trace_ok c s2 HA HI2) as (r' & Hr' & Hprobes & _). rewrite Hr in Hr'. inversion Hr'; subst r'.
         rewrite Hprobes. apply (published_probes_match c s2 _ _ HI2 HH2 Hni1).
-      * apply IH; [assumption| |intros q o' []].
+      * apply IH; [assumption| |intros j q Hj; destruct j; discriminate].
         destruct (advance_round_spec c s2 (i_advance i) HA HI2) as (sx & Hax & _ & _ & _ & _ & Hq & _ & _ & _ & _ & Hb & _).
         rewrite Ha in Hax. inversion Hax; subst sx.
         constructor; cbn [length nth_error]; try lia; try (intros [|?] ? Hx; discriminate); try (intros ? ? []). constructor.
